@@ -23,5 +23,7 @@
 /* p - q does not overflow int64 */
 #define DIFF_OK(p,q) (I128(p) - I128(q) >= INT64_MIN && I128(p) - I128(q) <= INT64_MAX)
 #define SGN(v) ((v) > 0 ? 1 : ((v) < 0 ? -1 : 0))
+/* R12/R14: an STL container member becomes an opaque (data,size) pair; growth is not modelled */
+typedef struct { void* data; size_t size; } VF_Vec;
 #define VF_CANARY() __CPROVER_assert(0, "VF_CANARY reachability")
 #endif
